@@ -123,3 +123,68 @@ func ZZ_C01_Reopen() {
 	zzReach("C01.reopen.done")
 	zzCleanupFiles()
 }
+
+// C06 (revert): reverting to snapshot s = the chain truncated at s plus a fresh empty
+// head, reopened with extent preload (what revertDisk + Reload(true) build): the
+// volume reads back exactly the image of snapshot s, and snapshots <= s are untouched.
+func ZZ_C06_Revert() {
+	B, U, Fmax := zzBounds()
+	F := zzConcretize(zzChoice("F", Fmax)) + 1
+	z := zzMkDiffDisk(B, U, F, false)
+	if F < 2 {
+		return
+	}
+	zzStartHoleWorker()
+	s := 1 + zzConcretize(zzChoice("target", F-1)) // a snapshot index 1..F-1
+	want := z.image(s)
+	var snaps [][]byte
+	for k := 0; k <= s; k++ {
+		snaps = append(snaps, z.image(k))
+	}
+	// the reverted replica: files 1..s + new empty head
+	nz := &zzDisk{B: B, U: U, F: s + 1, files: make([]*zzFile, s+2)}
+	nd := &diffDisk{rmLock: zzNewMutex(), sectorSize: int64(U) * zzScale(U), location: make([]uint16, B)}
+	nd.files = append(nd.files, nil)
+	nd.UserCreatedSnap = []bool{false}
+	for i := 1; i <= s; i++ {
+		nz.files[i] = z.files[i]
+		nd.files = append(nd.files, z.files[i])
+		nd.UserCreatedSnap = append(nd.UserCreatedSnap, z.d.UserCreatedSnap[i])
+		// openLiveChain: SnapIndx = index of the newest user-created snapshot
+		if z.d.UserCreatedSnap[i] {
+			nd.SnapIndx = i
+		}
+	}
+	nz.files[s+1] = zzEmptyFile(B, U)
+	nd.files = append(nd.files, nz.files[s+1])
+	nd.UserCreatedSnap = append(nd.UserCreatedSnap, false)
+	nz.d = nd
+	before := nz.presence()
+	err := preload(nd)
+	zzAssert(err == nil, "C06.revert.preload-error")
+	if zzNondetBool("holes.now") {
+		zzSettle()
+	}
+	total := B * U
+	rb := nz.buf(total)
+	n, rerr := nd.ReadAt(rb, 0)
+	zzAssert(rerr == nil && n == len(rb), "C06.revert.read-error")
+	userTarget := z.d.UserCreatedSnap[s]
+	for x := 0; x < total; x++ {
+		// promised for user-created targets (automatic ones may have been thinned)
+		zzAssert(zzImplies(userTarget, nz.unit(rb, x) == want[x]), "C06.revert-does-not-read-snapshot-image")
+	}
+	zzSettle()
+	for k := 1; k <= s; k++ {
+		after := nz.image(k)
+		same := true
+		for x := 0; x < total; x++ {
+			same = zzAnd(same, after[x] == snaps[k][x])
+		}
+		zzAssert(zzImplies(k <= nd.SnapIndx, same), "C06.revert-changed-a-retained-snapshot")
+	}
+	nz.checkProtected("C06.revert", before)
+	nz.checkInvD("C06.revert")
+	zzReach("C06.revert.done")
+	zzCleanupFiles()
+}
